@@ -329,7 +329,7 @@ class Runner:
         for display in self.displays(step):
             texts = {}
             for pol in self.plan["policies"]:
-                with seams.Env(core.H(self.rs, pol), sort=pol) as env, reach_display(step.get("reach", "direct"), display, step.get("other_options")):
+                with seams.Env(core.H(self.rs, pol), sort=pol, fill="a5") as env, reach_display(step.get("reach", "direct"), display, step.get("other_options")):
                     env.begin_step(sid)
                     try:
                         with numpy.printoptions(**(step.get("np_print") or {})):
@@ -419,7 +419,7 @@ class Runner:
             return
         display = {k: v for k, v in step["display"].items() if isinstance(v, bool)}
         for pol in self.plan["policies"]:
-            with seams.Env(core.H(self.rs, pol), sort=pol) as env, reach_display("direct", dict(display, display_exponent="**", display_multiply="*"), step.get("other_options")):
+            with seams.Env(core.H(self.rs, pol), sort=pol, fill="a5") as env, reach_display("direct", dict(display, display_exponent="**", display_multiply="*"), step.get("other_options")):
                 env.begin_step(sid)
                 try:
                     back = numpoly.polynomial(numpoly.to_sympy(p))
